@@ -31,7 +31,7 @@ def generate():
     if len(f) != 1:
         raise TranslatorError('covers_bounds not found')
     f = f[0]
-    fl = Flow(f)
+    fl = Flow(f, module=ut, assume_defaults=('tol',))
     im1, im2, exp = fl.params[0], fl.params[1], fl.params[2]
     rets = [n for n in ast.walk(f) if isinstance(n, ast.Return)]
     if len(rets) != 1:
@@ -120,8 +120,9 @@ def generate():
     others = [s for s in fl.order if isinstance(s, ast.Assign) and U(s.targets[0]) == W and s not in exps and not any(s is m for w_ in withs for m in ast.walk(w_))]
     out.append(f'Definition gen_expand_only_when_asked : bool := {"true" if oke and not others else "false"}.')
     # the default is no expansion, and the reader passes none
-    d = f.args.defaults
-    okd = len(d) == 1 and U(d[0]) == '(0, 0)'
+    pos = f.args.posonlyargs + f.args.args
+    dflt = {a_.arg: U(d_) for a_, d_ in zip(pos[len(pos) - len(f.args.defaults):], f.args.defaults)}
+    okd = dflt.get(exp) == '(0, 0)'
     rp = ast.parse((REPO / 'homonim' / 'raster_pair.py').read_text())
     init = [g for c in rp.body if isinstance(c, ast.ClassDef) and c.name == 'RasterPairReader' for g in c.body if isinstance(g, ast.FunctionDef) and g.name == '__init__'][0]
     fli = Flow(init)
